@@ -67,6 +67,18 @@ func zz20Want(b []byte, shape, a int, h []byte, strict, uniq, fullRef bool) (wan
 	return want, wantNoLimit
 }
 
+// zz20Covers records which verdict class was exercised for which shape.
+func zz20Covers(shape int, want, wantNoLimit bool) {
+	sh := [...]string{"/arr", "/obj", "/mix", "/mix2"}[shape]
+	if want {
+		vrt.Cover("accept" + sh)
+	} else if wantNoLimit {
+		vrt.Cover("refused-for-depth" + sh)
+	} else {
+		vrt.Cover("reject")
+	}
+}
+
 // zz20Pick returns v, or a solver-chosen value in 0..k-1 when v < 0.
 func zz20Pick(name string, v, k int) int {
 	if v >= 0 {
@@ -75,26 +87,20 @@ func zz20Pick(name string, v, k int) int {
 	return vrt.Choice(name, k)
 }
 
-// VerifC20DepthRead: texts nested a levels deep (a around the limit of 10000) around a
-// symbolic hole, through every reading entry point. The text is accepted exactly when the
+// VerifC20DepthRead: texts nested a levels deep (a around the limit of 10000) around the
+// concrete text inner followed by a symbolic hole, through every reading entry point. The text is accepted exactly when the
 // reference grammar with depth limit 10000 accepts it, and nothing panics.
 // op: 0 ReadToken loop, 1 ReadValue loop, 2 SkipValue loop, 3 Value.IsValid,
 // 4 the first a/2 levels token by token, then ReadValue (a even) / SkipValue (a odd) of the
 // remaining tower, then tokens.
-func VerifC20DepthRead(op, shape, aLo, aHi, holeLen int, allowDup, fullRef bool) {
+func VerifC20DepthRead(op, shape, aLo, aHi int, inner string, holeLen int, allowDup, fullRef bool) {
 	op = zz20Pick("op", op, 5)
 	shape = zz20Pick("shape", shape, 3)
 	a := vrt.IntRange("a", aLo, aHi)
-	h := zz20Hole(holeLen)
+	h := append([]byte(inner), zz20Hole(holeLen)...)
 	b := zz20Deep(shape, 0, a, h)
 	want, wantNoLimit := zz20Want(b, shape, a, h, true, !allowDup, fullRef)
-	if want {
-		vrt.Cover("accept")
-	} else if wantNoLimit {
-		vrt.Cover("refused-for-depth")
-	} else {
-		vrt.Cover("reject")
-	}
+	zz20Covers(shape, want, wantNoLimit)
 	var got bool
 	if op == 3 {
 		got = Value(b).IsValid(AllowDuplicateNames(allowDup))
@@ -161,11 +167,11 @@ func VerifC20DepthRead(op, shape, aLo, aHi, holeLen int, allowDup, fullRef bool)
 // VerifC20DepthFormat: the same towers through the formatting entry points
 // (reformatObject/reformatArray): op 0 Value.Format, 1 Value.Compact, 2 AppendFormat,
 // 3 Encoder.WriteValue, 4 k=a/2 WriteToken pushes then WriteValue of the remaining tower.
-func VerifC20DepthFormat(op, shape, aLo, aHi, holeLen int, allowDup, fullRef bool) {
+func VerifC20DepthFormat(op, shape, aLo, aHi int, inner string, holeLen int, allowDup, fullRef bool) {
 	op = zz20Pick("op", op, 5)
 	shape = zz20Pick("shape", shape, 3)
 	a := vrt.IntRange("a", aLo, aHi)
-	h := zz20Hole(holeLen)
+	h := append([]byte(inner), zz20Hole(holeLen)...)
 	b := zz20Deep(shape, 0, a, h)
 	uniq := !allowDup
 	strict := true
@@ -173,13 +179,7 @@ func VerifC20DepthFormat(op, shape, aLo, aHi, holeLen int, allowDup, fullRef boo
 		uniq, strict = false, false
 	}
 	want, wantNoLimit := zz20Want(b, shape, a, h, strict, uniq, fullRef)
-	if want {
-		vrt.Cover("accept")
-	} else if wantNoLimit {
-		vrt.Cover("refused-for-depth")
-	} else {
-		vrt.Cover("reject")
-	}
+	zz20Covers(shape, want, wantNoLimit)
 	var err error
 	switch op {
 	case 0:
